@@ -1043,7 +1043,7 @@ def build_wildcard_re(lookup_value):
     if regex != lookup_value:
         # this will be a regex match"""
         compiled = re.compile(f'^{regex.lower()}$')
-        return lambda x: x is not None and compiled.match(x.lower()) is not None
+        return lambda x: isinstance(x, str) and compiled.match(x.lower()) is not None
     else:
         return None
 
